@@ -4,7 +4,7 @@ import C01 as base
 from common import RULES
 
 PID = "C02"
-COQ_FILES = ["Model/Base.v", "Model/BpSpec.v", "Model/BpMachine.v", "Proofs/BpMachineProofs.v", "Gen/Bp.v", "Ties/BpTie.v", "Properties/C02.v"]
+COQ_FILES = ["Model/Base.v", "Model/BpSpec.v", "Model/BpMachine.v", "Proofs/BpMachineProofs.v", "Gen/Bp.v", "Ties/BpTie.v", "Gen/Step.v", "Ties/StepTie.v", "Properties/C02.v"]
 RULES[PID] = ("same histories as C01; after every command and at every stop the executable mapping of the program is read from /proc/<pid>/mem and "
               "compared byte by byte with the ELF file: the differing addresses must be exactly the user's current breakpoints plus the ELF entry point; "
               "before start nothing may differ; at the end stdout/stderr and the exit status must equal a native run. Non-trivial as for C01. Step commands: the "
